@@ -130,15 +130,48 @@ theorem torchSem_flip (dims : List Int) (cur : Raw) (o : Option Raw) :
       | none => .err
       | some ds => .t ⟨cur.shape, if ds.contains 0 then cur.prov.reverse else cur.prov⟩ := rfl
 
-theorem torchSem_roll (shift dim : Int) (cur : Raw) (o : Option Raw) :
-    torchSem (.roll shift dim) cur o =
-      match normDim cur.ndim dim with
+theorem torchSem_roll_dims (shifts ds : List Int) (cur : Raw) (o : Option Raw) :
+    torchSem (.roll shifts (some ds)) cur o =
+      if shifts.length ≠ ds.length then .err else
+      match ds.mapM (normDim cur.ndim) with
       | none => .err
-      | some d =>
-        if d ≠ 0 ∨ cur.shape.headD 1 = 0 then .t cur else
-        let s := (shift % ((cur.shape.headD 1 : Nat) : Int)).toNat
-        .t ⟨cur.shape, (List.range (cur.shape.headD 1)).map
-          (fun i => cur.prov.getD ((i + cur.shape.headD 1 - s) % cur.shape.headD 1) .none)⟩ := rfl
+      | some nds =>
+        .t ⟨cur.shape, (shifts.zip nds).foldl (fun p (sd : Int × Nat) => if sd.2 = 0 then rotR p sd.1 else p) cur.prov⟩ := rfl
+
+theorem torchSem_roll_flat (shifts : List Int) (cur : Raw) (o : Option Raw) :
+    torchSem (.roll shifts none) cur o =
+      match shifts with
+      | [s] =>
+          let total := numel cur.shape
+          if cur.ndim = 0 ∨ total = 0 then .t cur else
+          let m := total / cur.shape.headD 1
+          let s' := (s % (total : Int)).toNat
+          let q := s' / m
+          let r := s' % m
+          .t ⟨cur.shape, (List.range (cur.shape.headD 1)).map (fun i =>
+            let a := cur.prov.getD ((i + cur.shape.headD 1 - q) % cur.shape.headD 1) .none
+            if r = 0 then a else Prov.join a (cur.prov.getD ((i + 2 * cur.shape.headD 1 - q - 1) % cur.shape.headD 1) .none))⟩
+      | _ => .err := by
+  cases shifts with
+  | nil => rfl
+  | cons s rest => cases rest <;> rfl
+
+theorem torchSem_permute (perm : List Int) (cur : Raw) (o : Option Raw) :
+    torchSem (.permute perm) cur o =
+      match normDims cur.ndim perm with
+      | none => .err
+      | some p =>
+        if p.length ≠ cur.ndim then .err else
+        let sh := p.map (fun i => cur.shape.getD i 0)
+        if p.head? = some 0 then .t ⟨sh, cur.prov⟩ else .t ⟨sh, repl0 sh (joinAll cur.prov)⟩ := rfl
+
+theorem torchSem_transpose (d0 d1 : Int) (cur : Raw) (o : Option Raw) :
+    torchSem (.transpose d0 d1) cur o =
+      match normDim cur.ndim d0, normDim cur.ndim d1 with
+      | some a, some b =>
+        let sh := (List.range cur.ndim).map (fun i => cur.shape.getD (if i = a then b else if i = b then a else i) 0)
+        if a = b ∨ (a ≠ 0 ∧ b ≠ 0) then .t ⟨sh, cur.prov⟩ else .t ⟨sh, repl0 sh (joinAll cur.prov)⟩
+      | _, _ => .err := rfl
 
 theorem torchSem_getitem_single (i : Ix) (cur : Raw) (o : Option Raw) :
     torchSem (.getitem (.single i)) cur o = match rawIndex cur [i] with | some r => .t r | none => .err := rfl
@@ -201,20 +234,120 @@ theorem provLeRes_flip (dims : List Int) (cur : Raw) (o : Option Raw) :
     · exact List.mem_reverse.mp hp
     · exact hp
 
-theorem provLeRes_roll (shift dim : Int) (cur : Raw) (o : Option Raw) :
-    ProvLeRes (torchSem (.roll shift dim) cur o) cur := by
-  rw [torchSem_roll]
-  cases normDim cur.ndim dim with
+/-! ### single-source provenance (images): every entry holds data of item `k` or of nothing -/
+
+def ProvIn (k : Nat) (l : List Prov) : Prop := ∀ p ∈ l, p = .item k ∨ p = .none
+
+def ProvInRes (k : Nat) (res : RawRes) : Prop :=
+  match res with
+  | .t r => ProvIn k r.prov
+  | .ts l => ∀ r ∈ l, ProvIn k r.prov
+  | .err => True
+
+theorem provIn_of_provLe {k : Nat} {r t : Raw} (ht : ProvIn k t.prov) (h : ProvLe r t) : ProvIn k r.prov := by
+  intro p hp
+  rcases h p hp with h1 | h1
+  · exact ht p h1
+  · exact Or.inr h1
+
+theorem provInRes_of_provLeRes {k : Nat} {res : RawRes} {t : Raw} (ht : ProvIn k t.prov) (h : ProvLeRes res t) :
+    ProvInRes k res := by
+  cases res with
+  | err => trivial
+  | t r => exact provIn_of_provLe ht h
+  | ts l => exact fun r hr => provIn_of_provLe ht (h r hr)
+
+theorem provIn_getD {k : Nat} {l : List Prov} (h : ProvIn k l) (i : Nat) :
+    l.getD i .none = .item k ∨ l.getD i .none = .none := by
+  rcases getD_mem_or_none l i with h1 | h1
+  · exact h _ h1
+  · exact Or.inr h1
+
+theorem join_single_source {k : Nat} {a b : Prov} (ha : a = .item k ∨ a = .none) (hb : b = .item k ∨ b = .none) :
+    Prov.join a b = .item k ∨ Prov.join a b = .none := by
+  rcases ha with ha | ha <;> rcases hb with hb | hb <;> simp [ha, hb, Prov.join]
+
+theorem joinAll_single_source (l : List Prov) (k : Nat) (h : ProvIn k l) :
+    joinAll l = .item k ∨ joinAll l = .none := by
+  induction l with
+  | nil => right; rfl
+  | cons p ps ih =>
+    have ih' := ih (fun q hq => h q (by simp [hq]))
+    simp only [joinAll, List.foldr_cons] at ih' ⊢
+    exact join_single_source (h p (by simp)) ih'
+
+theorem mem_rotR {α : Type} (l : List α) (s : Int) (x : α) (h : x ∈ rotR l s) : x ∈ l := by
+  unfold rotR at h
+  split at h
+  · exact h
+  · rcases List.mem_append.mp h with h1 | h1
+    · exact List.mem_of_mem_drop h1
+    · exact List.mem_of_mem_take h1
+
+theorem provIn_rollFold (k : Nat) (zs : List (Int × Nat)) (p : List Prov) (h : ProvIn k p) :
+    ProvIn k (zs.foldl (fun p (sd : Int × Nat) => if sd.2 = 0 then rotR p sd.1 else p) p) := by
+  induction zs generalizing p with
+  | nil => exact h
+  | cons z zs ih =>
+    simp only [List.foldl_cons]
+    apply ih
+    split
+    · exact fun q hq => h q (mem_rotR _ _ _ hq)
+    · exact h
+
+theorem provIn_repl0 (k : Nat) (sh : List Nat) (p : Prov) (h : p = .item k ∨ p = .none) : ProvIn k (repl0 sh p) := by
+  intro q hq
+  unfold repl0 at hq
+  rw [List.mem_replicate] at hq
+  rw [hq.2]; exact h
+
+theorem provInRes_roll (k : Nat) (shifts : List Int) (dims : Option (List Int)) (cur : Raw) (o : Option Raw)
+    (h : ProvIn k cur.prov) : ProvInRes k (torchSem (.roll shifts dims) cur o) := by
+  cases dims with
+  | some ds =>
+    rw [torchSem_roll_dims]
+    split
+    · trivial
+    · cases ds.mapM (normDim cur.ndim) with
+      | none => trivial
+      | some nds => exact provIn_rollFold k _ _ h
+  | none =>
+    rw [torchSem_roll_flat]
+    split
+    · simp only []
+      split
+      · exact h
+      · simp only [ProvInRes]
+        intro p hp
+        simp only [List.mem_map] at hp
+        obtain ⟨i, _, rfl⟩ := hp
+        split
+        · exact provIn_getD h _
+        · exact join_single_source (provIn_getD h _) (provIn_getD h _)
+    · trivial
+
+theorem provInRes_permute (k : Nat) (perm : List Int) (cur : Raw) (o : Option Raw) (h : ProvIn k cur.prov) :
+    ProvInRes k (torchSem (.permute perm) cur o) := by
+  rw [torchSem_permute]
+  cases normDims cur.ndim perm with
   | none => trivial
-  | some d =>
+  | some p =>
     simp only []
     split
-    · exact provLe_refl cur
-    · simp only [ProvLeRes]
-      intro p hp
-      simp only [List.mem_map] at hp
-      obtain ⟨i, _, rfl⟩ := hp
-      exact getD_mem_or_none _ _
+    · trivial
+    · split
+      · exact h
+      · exact provIn_repl0 k _ _ (joinAll_single_source _ k h)
+
+theorem provInRes_transpose (k : Nat) (d0 d1 : Int) (cur : Raw) (o : Option Raw) (h : ProvIn k cur.prov) :
+    ProvInRes k (torchSem (.transpose d0 d1) cur o) := by
+  rw [torchSem_transpose]
+  split
+  · simp only []
+    split
+    · exact h
+    · exact provIn_repl0 k _ _ (joinAll_single_source _ k h)
+  · trivial
 
 theorem provLe_piece (t : Raw) (d start len : Nat) : ProvLe (piece t d start len) t := by
   apply provLe_of_subset
